@@ -21,7 +21,9 @@ THEORIES = ['theories/L5Cover/BoxesProofs.vo',
             'theories/L5Cover/CoverEnumExact.vo',
             'theories/L5Cover/MinCoverTotal.vo',
             'theories/L5Cover/CoverEnumOldLeaf.vo',
-            'theories/L5Cover/CoverEnumRefutedTotal.vo']
+            'theories/L5Cover/CoverEnumRefutedTotal.vo',
+            'theories/L5Cover/CoverEnumTotalLemmas.vo',
+            'theories/L5Cover/CoverEnumTotal.vo']
 
 HEADER = cq.HEADER + ('From Omega Require Import L5Cover.MinCover '
                       'L5Cover.CoverEnum L5Cover.CoverEnumOld.\n')
